@@ -1237,6 +1237,8 @@ using OVN = cnl::overflow_integer<int>;
 using RND = cnl::rounding_integer<int>;
 using E7N8 = cnl::elastic_integer<7, std::int8_t>;  // representations of character type: text must still be a numeral
 using OVU8 = cnl::overflow_integer<std::uint8_t>;
+using E33N8 = cnl::elastic_integer<33, std::int8_t>;  // one-byte Narrowest, but a 64-bit rep
+using EU32N8 = cnl::elastic_integer<32, std::uint8_t>;
 using W7C = cnl::wide_integer<7, signed char>;
 using W100 = cnl::wide_integer<100>;
 using W200 = cnl::wide_integer<200>;
